@@ -14,13 +14,18 @@ TAB == 9
 
 Bytes(c) == IF c < 128 THEN 1 ELSE IF c < 2048 THEN 2 ELSE IF c < 65536 THEN 3 ELSE 4
 
-\* Display width of a character other than newline and tab.  Zero-width: combining acute
-\* U+0301, zero-width space U+200B, zero-width joiner U+200D.  Double-width: CJK U+6F22,
-\* hiragana U+3042, fullwidth A U+FF21, emoji U+1F600.  Control characters have no width and
-\* count as 1 (the library's documented fallback).
+\* Display width of a character other than newline and tab (facts about Unicode, as the
+\* unicode-width crate reports them).  Zero-width: soft hyphen U+00AD, combining grave / acute
+\* U+0300 / U+0301, Hangul jungseong filler U+1160, zero-width space U+200B, zero-width joiner
+\* U+200D, byte-order mark U+FEFF.  Double-width: Hangul choseong U+1100 / U+115F, ideographic
+\* space U+3000, hiragana U+3042, CJK U+6F22, fullwidth ! U+FF01, fullwidth A U+FF21, emoji
+\* U+1F600.  Control characters (U+0000..U+001F, U+007F..U+009F) have no width and count as 1
+\* (the library's documented fallback); so do all other characters used by the families (the
+\* UTF-8 length boundaries U+007F/U+0080, U+07FF/U+0800, U+FFFF/U+10000, both sides of the
+\* surrogate gap, U+10FFFF, the line separators U+2028/U+2029).
 Width(c) ==
-  IF c \in {769, 8203, 8205} THEN 0
-  ELSE IF c \in {28450, 12354, 65313, 128512} THEN 2
+  IF c \in {173, 768, 769, 4448, 8203, 8205, 65279} THEN 0
+  ELSE IF c \in {4352, 4447, 12288, 12354, 28450, 65281, 65313, 128512} THEN 2
   ELSE 1
 
 ZeroLoc == [l |-> 0, c |-> 0, b |-> 0]
